@@ -143,7 +143,7 @@ Print Assumptions no_silent_passthrough.
 
 Theorem no_silent_passthrough_refuted : forall c, cfg_that_rejected c = false ->
   exists sc n, scope_closed sc = true /\ in_frames sc n = false /\ lower_ref c sc ([], n) = OPassthrough.
-Proof. intros [a b] H. cbn in H. subst a. exists ex_scope, s_that_name. vm_compute. auto. Qed.
+Proof. intros [a b d e] H. cbn in H. subst a. exists ex_scope, s_that_name. vm_compute. auto. Qed.
 Print Assumptions no_silent_passthrough_refuted.
 
 (* every passthrough is that one: any identifier, qualified or not, in any scope, and only without the repair *)
@@ -160,7 +160,7 @@ Print Assumptions no_silent_passthrough_partial.
 
 (* The tree under test has the repair 006e33c (table obligation on the regenerated [head_cfg]; a regression to the old
    shape breaks it, and the streams -- edit class (f), the lowerer-trace oracle -- then find the concrete `that`). *)
-Theorem c10_head_cfg_is_repaired : head_cfg = mkCfg true true.
+Theorem c10_head_cfg_is_repaired : head_cfg = mkCfg true true false false.
 Proof. vm_compute. reflexivity. Qed.
 Print Assumptions c10_head_cfg_is_repaired.
 
@@ -181,8 +181,8 @@ Proof. vm_compute. auto 10. Qed.
 
 (* `that` with and without the repair *)
 Example c10_ex_that :
-  lower_ref (mkCfg false false) ex_scope ([], s_that_name) = OPassthrough
-  /\ lower_ref (mkCfg true false) ex_scope ([], s_that_name) = OErr ENotAValue.
+  lower_ref (mkCfg false false false false) ex_scope ([], s_that_name) = OPassthrough
+  /\ lower_ref (mkCfg true false false false) ex_scope ([], s_that_name) = OErr ENotAValue.
 Proof. vm_compute. auto. Qed.
 
 (* ---- declarations inside modules: table references look at the enclosing modules first (repair d92afac) ---- *)
@@ -287,7 +287,7 @@ Proof. intros. apply parent_walk_visits_every_ancestor. vm_compute. reflexivity.
 Print Assumptions c10_head_every_ancestor_visited.
 
 Example c10_ex_module_sibling :
-  let old := mkCfg false false in let new := mkCfg false true in
+  let old := mkCfg false false false false in let new := mkCfg false true false false in
   rel_arg_kind_m old (ex_ms [[109]]) ([], [107]) = Some AScalar
   /\ rel_arg_kind_m_before_d92afac (ex_ms [[109]]) ([], [107]) = Some ARel
   /\ rel_arg_kind_m old (ex_ms [[109]]) ([], [114]) = Some ARel
@@ -324,8 +324,8 @@ Print Assumptions pop_front_leaves_parents_name_to_inference.
 Example c10_ex_module_open_frame :
   let ms := mkMScope (mkScope [(s_std_name, NModule); (s_db_name, NModule); ([109], NModule)]
                               (mkFrame [mkInput [122;116] [] true] []) None [] std_names) [[109]; [110]] ex_mods in
-  lower_ref_m (mkCfg false false) ms ([], [107]) = OInferredColumn false 0
-  /\ lower_ref_m (mkCfg false true) ms ([], [107]) = OValue.
+  lower_ref_m (mkCfg false false false false) ms ([], [107]) = OInferredColumn false 0
+  /\ lower_ref_m (mkCfg false true false false) ms ([], [107]) = OValue.
 Proof. vm_compute. auto. Qed.
 
 (* ---- type names: `this` and `that` are shadowed while a type annotation is resolved (fold_type) ---- *)
@@ -356,6 +356,78 @@ Example c10_ex_type_names :
   /\ type_ref sc ([[116;104;105;115]], [98]) = TErr EUnknown
   /\ type_ref sc ([], [109;97;116;104]) = TErr ENotAType.
 Proof. vm_compute. auto 10. Qed.
+
+(* ---- case branches that static evaluation removes (finding C10-F7) ----
+   Full statement: the value of such a branch is judged like the value of a live one,
+     forall sc id, lower_ref_dead head_cfg sc id = lower_ref head_cfg sc id.
+   TRUE with the check in static_eval.rs (cfg_dead_case_checked, proposed repair fixes/C10-F7-*.diff); without it what only
+   lower_expr rejects -- a module, a relation variable, default_db.x, the bare `that` -- is dropped unseen, while what the
+   resolver rejects stays rejected. *)
+Theorem dead_branch_judged_like_a_live_one : forall c sc id,
+  cfg_dead_case_checked c = true -> lower_ref_dead c sc id = lower_ref c sc id.
+Proof. exact ScopeProofs.dead_branch_judged_like_a_live_one. Qed.
+Print Assumptions dead_branch_judged_like_a_live_one.
+
+Theorem dead_branch_never_unchecked : forall c sc id,
+  cfg_dead_case_checked c = true -> lower_ref_dead c sc id <> ODropped.
+Proof. exact ScopeProofs.dead_branch_never_unchecked. Qed.
+Print Assumptions dead_branch_never_unchecked.
+
+Theorem dead_branch_resolver_errors_stay : forall c sc id e,
+  resolve sc id = RErr e -> lower_ref_dead c sc id = OErr e.
+Proof. exact ScopeProofs.dead_branch_resolver_errors_stay. Qed.
+Print Assumptions dead_branch_resolver_errors_stay.
+
+Theorem dead_branch_module_dropped : forall c sc n k,
+  cfg_dead_case_checked c = false ->
+  lookup sc ([], n) = [k] -> (k = CRoot NModule \/ k = CStd NModule \/ k = CRoot NTable) ->
+  lower_ref_dead c sc ([], n) = ODropped.
+Proof. exact ScopeProofs.dead_branch_module_dropped. Qed.
+Print Assumptions dead_branch_module_dropped.
+
+Definition dead_branches_at (c : cfg) : Prop :=
+  if cfg_dead_case_checked c
+  then forall sc id, lower_ref_dead c sc id = lower_ref c sc id
+  else lower_ref_dead c ex_scope ([], s_date) = ODropped                         (* `case [false => date, ..]` compiles *)
+       /\ (forall sc id e, resolve sc id = RErr e -> lower_ref_dead c sc id = OErr e).
+
+Theorem c10_head_dead_branches : dead_branches_at head_cfg.
+Proof.
+  unfold dead_branches_at. destruct (cfg_dead_case_checked head_cfg) eqn:E.
+  - intros. apply dead_branch_judged_like_a_live_one. exact E.
+  - split; [|intros; apply dead_branch_resolver_errors_stay; assumption].
+    apply (dead_branch_module_dropped head_cfg ex_scope s_date (CStd NModule) E); [vm_compute; reflexivity | auto].
+Qed.
+Print Assumptions c10_head_dead_branches.
+
+(* ---- a call of an std operator where a relation is required (finding C10-F4) ----
+   Full statement: it is a scalar argument, hence rejected.  TRUE with the test in validate_expr_type (cfg_std_call_rejected,
+   proposed repair fixes/C10-F4-*.diff); without it the untyped call is taken for a table. *)
+Theorem std_call_where_relation_rejected : forall c f args named i,
+  cfg_std_call_rejected c = true ->
+  nth_error (fs_params f) i = Some PRel -> nth_error args i = Some (seen c SStdCall) ->
+  length args = length (fs_params f) ->
+  exists e, apply_fn f args named = AErr e.
+Proof. exact ScopeProofs.std_call_where_relation_rejected. Qed.
+Print Assumptions std_call_where_relation_rejected.
+
+Theorem std_call_taken_for_a_table : forall c, cfg_std_call_rejected c = false -> seen c SStdCall = ARel.
+Proof. exact ScopeProofs.std_call_taken_for_a_table. Qed.
+Print Assumptions std_call_taken_for_a_table.
+
+Definition std_calls_at (c : cfg) : Prop :=
+  if cfg_std_call_rejected c
+  then forall f args named i, nth_error (fs_params f) i = Some PRel -> nth_error args i = Some (seen c SStdCall) ->
+         length args = length (fs_params f) -> exists e, apply_fn f args named = AErr e
+  else match sig_of [[102;114;111;109]] with Some s => apply_fn s [seen c SStdCall] [] | None => AErr EUnknown end = Applied.   (* from (math.abs 3) *)
+
+Theorem c10_head_std_calls : std_calls_at head_cfg.
+Proof.
+  unfold std_calls_at. destruct (cfg_std_call_rejected head_cfg) eqn:E.
+  - intros. eapply std_call_where_relation_rejected; eassumption.
+  - rewrite (std_call_taken_for_a_table head_cfg E). vm_compute. reflexivity.
+Qed.
+Print Assumptions c10_head_std_calls.
 
 (* ---- every std function checks its arguments ----
    The signature table is regenerated from std.prql; the generic theorems instantiate to EVERY entry, and the check calls
